@@ -542,8 +542,8 @@ class StandardDecodeMixin(object):
         # Validate tag
         tag_data = data[start_offset:offset]
         if tag_data != self.tag:
-            # Check for missing data
-            if len(tag_data) != self.tag_len:
+            # Check for missing data (the data ends within the tag)
+            if len(tag_data) != self.tag_len and self.tag.startswith(tag_data):
                 raise OutOfByteDataError('Ran out of data when reading tag',
                                          offset=start_offset)
             # return TAG_MISMATCH Instead of raising DecodeTagError for better performance so that MembersType does
@@ -626,8 +626,9 @@ class PrimitiveOrConstructedType(Type):
             is_primitive = True
         elif tag == self.constructed_tag:
             is_primitive = False
-        elif len(tag) != self.tag_len:
-            # Detect out of data
+        elif (len(tag) != self.tag_len
+              and (self.tag.startswith(tag) or self.constructed_tag.startswith(tag))):
+            # Detect out of data (the data ends within the tag)
             raise OutOfByteDataError('Ran out of data when reading tag',
                                      offset=start_offset)
         else:
